@@ -166,6 +166,12 @@ Example C18_ex_order_hyps : exists (x : list R) (beta : R) (i j : nat),
   0 < beta /\ (i < length x)%nat /\ (j < length x)%nat /\ nth i x 0 <= nth j x 0 /\ i <> j.
 Proof. exists [1; 2; 3], (1 / 2), 0%nat, 2%nat. simpl. repeat split; try lra; auto. Qed.
 
+(* the empty-input guard of _elementwise (u.size == 0 -> u[0]) is what map does on the empty list *)
+Example C18_ex_elementwise_empty :
+  act_softplus [] = [] /\ act_sigmoid [] = [] /\ act_tanh [] = [] /\ act_identity [] = [] /\ act_relu [] = [] /\
+  forall beta, act_softmax [] beta = [].
+Proof. repeat split. Qed.
+
 Example C18_ex_sigmoid_0 : act_sigmoid_s 0 = 1 / 2.
 Proof. destruct (C18_sigmoid_def 0) as [H _]. rewrite H, Ropp_0, exp_0. lra. Qed.
 
